@@ -68,6 +68,15 @@ static double run_case(const Case& c, std::string* what = nullptr) {
   try { squids::math_detail::matrix_exponential(eA.g, A.g); }
   catch (const std::exception& e) { if (what) *what = e.what(); return -1; }
   Mat got = gsl2mat(eA.g);
+  { // the same matrix as a window of a larger block (row stride != n), result into a window as well: bit-identical
+    GslMat bigA(c.n + 2, c.n + 3), bigE(c.n + 1, c.n + 2);
+    for (int i = 0; i < c.n + 2; i++) for (int j = 0; j < c.n + 3; j++) gsl_matrix_complex_set(bigA.g, i, j, gsl_complex_rect(7.5 + i, -3.25 * j));
+    gsl_matrix_complex_view va = gsl_matrix_complex_submatrix(bigA.g, 1, 1, c.n, c.n), ve = gsl_matrix_complex_submatrix(bigE.g, 0, 1, c.n, c.n);
+    gsl_matrix_complex_memcpy(&va.matrix, A.g);
+    try { squids::math_detail::matrix_exponential(&ve.matrix, &va.matrix); } catch (const std::exception& e) { if (what) *what = std::string("strided view: ") + e.what(); return -1; }
+    Mat gv = gsl2mat(&ve.matrix); bool same = true; for (size_t k = 0; k < gv.a.size(); k++) if (!(gv.a[k] == got.a[k]) && !(std::isnan(gv.a[k].real()) && std::isnan(got.a[k].real()))) same = false;
+    if (!same) return INFINITY;
+  }
   if (!ref::finite(got)) return INFINITY;
   return ref::norm1(got - c.want) / ref::norm1(c.want);
 }
